@@ -3,6 +3,7 @@ tmatmul_exact).  Ties: K2 real _tmatmul over the symbolic carrier with literal z
 triangle (values, store order, clipped read sets), K4 real types."""
 import random
 from vlib import core, symrun, flow, shapes
+from vlib import shapes as shapes_mod
 
 PID = "C17"
 TAGS = {"g": "Fastor::UpLoType::General", "l": "Fastor::UpLoType::Lower", "u": "Fastor::UpLoType::Upper"}
@@ -21,6 +22,13 @@ def sym_groups(tier, seed):
                 shapes.add((rng.randint(1, bound), rng.randint(1, bound), rng.randint(1, bound + 8)))
             shapes |= {(5, 5, 5), (13, 13, 13), (12, 9, 24), (9, 7, 11), (4, 4, 4), (1, 1, 1), (3, 4, 2)}
             calls = []
+            # the masked kernel with every row part and every column part present (M0 > 0, M0 < M1 < M, N0 > 0, masked remainder):
+            # its interior blocks are called WITHOUT the triangle tags in the library, only the two hand-written column loops of the
+            # second row loop clip k — a model of that kernel has to be tied on a shape where all of these parts exist
+            V = shapes_mod.vsize(isa, sz, 64) if isa != "scalar" else 1
+            if V >= 4:
+                for (a, b) in [("u", "g"), ("u", "l"), ("g", "u"), ("l", "u")] if tier == "quick" else pairs:
+                    calls.append("run_tmatmul<Sym%d,%d,%d,%d,%s,%s>();" % (sz, 2 * V + 5, V + 3, 2 * V + 3, TAGS[a], TAGS[b]))
             for (m, k, n) in sorted(shapes):
                 ps = pairs if tier == "thorough" else rng.sample(pairs, 4)
                 for (a, b) in ps:
